@@ -1,5 +1,5 @@
 import Ovsdb.Codec
-import Ovsdb.Model.Wire
+import Ovsdb.Model.WireEnc
 /-
   Lean.Json <-> Wire.J, and the canonical rendering of decoded values for the
   correspondence check of the wire decoders (C19, C12).
@@ -57,6 +57,105 @@ def decodeWireFn (j : Json) : P Json := do
   | "row" => return outcomeToJson (fun m => Json.mkObj (m.map (fun p => (p.1, goValToJson p.2)))) (decodeRow wireFuel t)
   | "condition" => return outcomeToJson triple (decodeCondition wireFuel t)
   | "mutation" => return outcomeToJson triple (decodeMutation wireFuel t)
+  | _ => throw s!"unknown wire kind {kind}"
+
+end Ovsdb
+
+/-! ### C12: encoders and schema codecs -/
+namespace Ovsdb
+open Lean Ovsdb.Wire
+
+def isHexLowerC (c : Char) : Bool := (c ≥ '0' && c ≤ '9') || (c ≥ 'a' && c ≤ 'f')
+
+/-- `ValidateUUID` (36 characters, 8-4-4-4-12 lower-case hex) -/
+def validUUIDText (s : String) : Bool :=
+  let cs := s.toList
+  cs.length == 36 &&
+  (List.range 36).all (fun i =>
+    let c := cs.getD i ' '
+    if i == 8 || i == 13 || i == 18 || i == 23 then c == '-' else isHexLowerC c)
+
+def wAtomOfAtom : Atom → WAtom
+  | .int i => .num i
+  | .real r => .num r
+  | .bool b => .bool b
+  | .str s => .str s
+  | .uuid u => .uuid u
+
+def wValOfValue : Value → WVal
+  | .atom a => .atom (wAtomOfAtom a)
+  | .opt none => .set []
+  | .opt (some a) => .set [wAtomOfAtom a]
+  | .set l => .set (l.map wAtomOfAtom)
+  | .map m => .map (m.map (fun p => (wAtomOfAtom p.1, wAtomOfAtom p.2)))
+
+def wValOfJson (j : Json) : P WVal := do return wValOfValue (← valueOfJson j)
+
+def wRowOfJson (j : Json) : P WRow := do
+  match j with
+  | .obj kv => kv.toList.mapM (fun p => do return (p.1, ← wValOfJson p.2))
+  | .null => return []
+  | _ => throw "bad row"
+
+def wTripleOfJson (j : Json) : P (String × String × WVal) := do
+  match ← jArr j with
+  | [c, f, v] => return (← jStr c, ← jStr f, ← wValOfJson v)
+  | _ => throw "bad triple"
+
+def wOperationOfJson (j : Json) : P WOperation := do
+  let str := fun k => jFieldD j k jStr ""
+  return {
+    op := ← str "op", table := ← str "table",
+    row := ← jFieldD j "row" wRowOfJson [],
+    rows := ← jFieldD j "rows" (jList wRowOfJson) [],
+    columns := ← jFieldD j "columns" (jList jStr) [],
+    mutations := ← jFieldD j "mutations" (jList wTripleOfJson) [],
+    timeout := ← jFieldD j "timeout" (fun x => some <$> jInt x) none,
+    where_ := ← jFieldD j "where" (jList wTripleOfJson) [],
+    until_ := ← str "until",
+    durable := ← jFieldD j "durable" (fun x => some <$> jBool x) none,
+    comment := ← jFieldD j "comment" (fun x => some <$> jStr x) none,
+    lock := ← jFieldD j "lock" (fun x => some <$> jStr x) none,
+    uuid := ← str "uuid", uuidName := ← str "uuid-name" }
+
+def encodeWireFn (j : Json) : P Json := do
+  let kind ← jStr (← jField j "kind")
+  let v ← jField j "v"
+  match kind with
+  | "value" => return jToJson (encodeWVal validUUIDText (← wValOfJson v))
+  | "condition" | "mutation" => return jToJson (encodeCondition validUUIDText (← wTripleOfJson v))
+  | "row" => return jToJson (encodeRow validUUIDText (← wRowOfJson v))
+  | "operation" => return jToJson (encodeOperation validUUIDText (← wOperationOfJson v))
+  | _ => throw s!"unknown wire kind {kind}"
+
+def gTripleToJson (x : String × String × GoVal) : Json := Json.arr #[.str x.1, .str x.2.1, goValToJson x.2.2]
+def gRowToJson (m : GRow) : Json := Json.mkObj (m.map (fun p => (p.1, goValToJson p.2)))
+def optJ {α} (f : α → Json) : Option α → Json
+  | none => .null
+  | some a => f a
+
+def gOperationToJson (o : GOperation) : Json := Json.mkObj [
+  ("op", .str o.op), ("table", .str o.table), ("row", gRowToJson o.row), ("rows", listToJson gRowToJson o.rows),
+  ("columns", listToJson Json.str o.columns), ("mutations", listToJson gTripleToJson o.mutations),
+  ("timeout", optJ (fun (i : Int) => Json.num ⟨i, 0⟩) o.timeout), ("where", listToJson gTripleToJson o.where_),
+  ("until", .str o.until_), ("durable", optJ Json.bool o.durable), ("comment", optJ Json.str o.comment),
+  ("lock", optJ Json.str o.lock), ("uuid", .str o.uuid), ("uuid-name", .str o.uuidName)]
+
+/-- decode with the model and, when it decodes, encode the result again -/
+def recodeWireFn (j : Json) : P Json := do
+  let kind ← jStr (← jField j "kind")
+  let t := jOfJson ((j.getObjVal? "json").toOption.getD .null)
+  let re {α} (o : Outcome α) (enc : α → J) : Json :=
+    match o with
+    | .ok v => Json.mkObj [("class", .str "ok"), ("reencoded", jToJson (enc v))]
+    | .err e => Json.mkObj [("class", .str "err"), ("msg", .str e)]
+    | .panic => Json.mkObj [("class", .str "panic")]
+  match kind with
+  | "basetype" => return re (decodeBaseType t) encodeBaseType
+  | "columntype" => return re (decodeColumnType t) encodeColumnType
+  | "columnschema" => return re (decodeColumnSchema t) encodeColumnSchema
+  | "select" => return re (decodeMonitorSelect t) encodeMonitorSelect
+  | "operation" => return outcomeToJson gOperationToJson (decodeOperation wireFuel t)
   | _ => throw s!"unknown wire kind {kind}"
 
 end Ovsdb
